@@ -564,10 +564,19 @@ def sigfn(results_by_id):
 
 def run(ctx):
     d = 1 if ctx.quick else 2
-    cases = make_cases(d)
+    allcases = make_cases(d)
     worker.base = str(ctx.scratch)
     ctx.reset_pool()
-    results = xform.judge_cases(ctx, cases, worker)
+    # phase 1: base kernel and single blocks; phase 2: pairs - but not for a variant whose base kernel already violates
+    # the property (at file level every extraction is uncompilable): such pairs cannot show anything beyond that
+    first = [c for c in allcases if len(c['switches']) <= 1]
+    res1 = xform.judge_cases(ctx, first, worker)
+    dead = {c['id'].split('|', 1)[1] for c, r in zip(first, res1)
+            if not c['switches'] and r['verdict'] not in ('ok', 'unchanged-ok', 'refused')}
+    pairs = [c for c in allcases if len(c['switches']) > 1]
+    second = [c for c in pairs if c['id'].split('|', 1)[1] not in dead]
+    res2 = xform.judge_cases(ctx, second, worker) if second else []
+    cases, results = first + second, res1 + res2
     by_id = {r['id']: r for r in results}
     xform.summarise(ctx, cases, results, sigfn(by_id))
     npb = sum(len(c['passback']) for c in cases)
@@ -577,11 +586,11 @@ def run(ctx):
         exhaustive=True,
         bound=dict(max_blocks=d, region_blocks=len(RBLOCKS), internal_blocks=len(IBLOCKS), module_switches=len(MSWITCHES),
                    families=fams, variants={k: len(v) for k, v in XFORMS.items()}),
-        passback_obligations=npb,
+        passback_obligations=npb, variants_with_violating_base=sorted(dead), pairs_not_run_behind_violating_base=len(pairs) - len(second),
         rule=f'all combinations of <= {d} feature blocks ({len(RBLOCKS)} region, {len(IBLOCKS)} internal-procedure, '
              f'{len(MSWITCHES)} module-structure) added to the base kernel x entry points / ExtractTransformation options x '
-             '{module, file} level; 3 inputs per run; non-trivial = the transformation changed the code and the program '
-             'still prints the original output',
+             '{module, file} level (pairs are not run for a variant whose base kernel already violates the property); '
+             '3 inputs per run; non-trivial = the transformation changed the code and the program still prints the original output',
         samples=[dict(id=cases[0]['id']), dict(id=cases[-1]['id'], text=cases[-1]['sources'][2][1])],
     )
     ctx.assumptions += ['gfortran -O0 -fcheck=bounds defines behaviour', 'only standard-conforming programs are generated',
